@@ -56,6 +56,8 @@ type cdoc struct {
 	gen.Doc
 	// UA, when not empty, replaces the user-agent style sheet (tree.HTML.UAStyleSheet).
 	UA string `json:"ua,omitempty"`
+	// Biased: produced by this package's generator (not by the hostile grammar of internal/gen).
+	Biased bool `json:"biased,omitempty"`
 }
 
 type input struct {
@@ -78,7 +80,7 @@ type sizes struct{ det, conc, docsPerDet, concDocs, rounds int }
 
 func sz(tier string) sizes {
 	if tier == "thorough" {
-		return sizes{det: 1500, conc: 160, docsPerDet: 4, concDocs: 8, rounds: 12}
+		return sizes{det: 1200, conc: 120, docsPerDet: 4, concDocs: 8, rounds: 12}
 	}
 	return sizes{det: 60, conc: 16, docsPerDet: 4, concDocs: 8, rounds: 5}
 }
@@ -100,7 +102,7 @@ func runSeed() int64 {
 func genDoc(r *rand.Rand) cdoc {
 	switch k := r.Intn(10); {
 	case k < 6:
-		d := cdoc{Doc: biasedDoc(r)}
+		d := cdoc{Doc: biasedDoc(r), Biased: true}
 		if r.Intn(4) == 0 {
 			d.UA = uaSheet(r)
 		}
@@ -142,7 +144,7 @@ func genCase(seed int64, i int, tier string) input {
 	if r.Intn(2) == 0 {
 		ua := uaSheet(r)
 		for k := range in.Docs {
-			if in.Docs[k].UA == "" && strings.HasPrefix(in.Docs[k].HTML, "<!DOCTYPE html><html lang=") { // biased documents only
+			if in.Docs[k].UA == "" && in.Docs[k].Biased {
 				in.Docs[k].UA = ua
 			}
 		}
@@ -307,6 +309,9 @@ func check(raw json.RawMessage) fw.Result {
 	var res fw.Result
 	if err := json.Unmarshal(raw, &in); err != nil {
 		return fw.Result{Verdict: fw.Inconclusive, Msg: err.Error()}
+	}
+	if os.Getenv("C15_STRICT") != "" {
+		in.Strict = true // development aid (no known-defect exclusions); registered commands never set it
 	}
 	quietOnce.Do(wr.Quiet)
 	if raceOn {
@@ -534,7 +539,7 @@ const rewriteDefectsOpen = true
 
 func paintMutates(d *cdoc) bool {
 	t := strings.ToLower(docText(d))
-	return strings.Contains(t, "block-ellipsis") || strings.Contains(t, "marks")
+	return strings.Contains(t, "block-ellipsis") || strings.Contains(t, "line-clamp") || strings.Contains(t, "max-lines") || strings.Contains(t, "marks")
 }
 
 // docText is all the text of a document (HTML, sheets, resources).
